@@ -414,7 +414,9 @@ class Interp:
                 else:
                     if any(isinstance(x, ast.Starred) for x in e.elts):
                         v = TOP
-                    elif (isinstance(e, ast.Tuple) and e.elts) or (isinstance(e, ast.List) and getattr(d, "exact_lists", False)):
+                    elif (isinstance(e, ast.Tuple) and e.elts) or (isinstance(e, ast.List) and getattr(d, "exact_lists", False)) \
+                            or (isinstance(e, ast.Set) and getattr(d, "exact_lists", False) and all(isinstance(x, ast.Constant) for x in e.elts)):
+                        # (a set of constants is iterated in source order: one of its possible orders)
                         v = ("tuple",) + tuple(r.value)
                     else:
                         v = EMPTY if not e.elts else NONEMPTY
